@@ -84,6 +84,30 @@ fn leaf_faults() -> Vec<(&'static str, E)> {
         ("objcomp-name-sees-no-later-objlocal", E::ObjComp { locals1: vec![], name: b(var("w")), plus: false, body: b(num(1)), locals2: vec![Bind { name: "w".into(), params: None, body: strlit("n") }], specs: vec![Spec::For("q".into(), E::Array(vec![]))] }),
         ("objcomp-name-sees-no-dollar", E::ObjComp { locals1: vec![], name: b(E::Field(b(E::Dollar), "a".into())), plus: false, body: b(num(1)), locals2: vec![], specs: vec![Spec::For("q".into(), E::Array(vec![]))] }),
         ("ok-objcomp-name-sees-comp-var", E::ObjComp { locals1: vec![Bind { name: "w".into(), params: None, body: var("q") }], name: b(var("q")), plus: false, body: b(var("w")), locals2: vec![], specs: vec![Spec::For("q".into(), E::Array(vec![strlit("n")]))] }),
+        // every binder of a group is in scope of every other binder's body, earlier or later
+        ("ok-local-forward", E::Local(vec![Bind { name: "q".into(), params: None, body: var("r") }, Bind { name: "r".into(), params: None, body: num(1) }], b(var("q")))),
+        ("ok-local-function-forward", E::Local(vec![Bind { name: "q".into(), params: Some(vec![]), body: E::Call(b(var("r")), vec![], false) }, Bind { name: "r".into(), params: Some(vec![]), body: num(1) }], b(E::Call(b(var("q")), vec![], false)))),
+        ("ok-objlocal-forward", E::Object(vec![
+            Member::Local(Bind { name: "q".into(), params: None, body: var("r") }),
+            Member::Field { name: FieldName::Id("k".into()), plus: false, vis: Vis::Default, params: None, body: var("q") },
+            Member::Local(Bind { name: "r".into(), params: None, body: num(1) }),
+        ])),
+        ("ok-objlocal-forward-adjacent", E::Object(vec![
+            Member::Local(Bind { name: "q".into(), params: None, body: var("r") }),
+            Member::Local(Bind { name: "r".into(), params: None, body: num(1) }),
+            Member::Field { name: FieldName::Id("k".into()), plus: false, vis: Vis::Hidden, params: None, body: var("q") },
+        ])),
+        ("ok-method-param-default-sees-later-objlocal", E::Object(vec![
+            Member::Field { name: FieldName::Id("m".into()), plus: false, vis: Vis::Hidden, params: Some(vec![Param { name: "p".into(), default: Some(var("r")) }]), body: var("p") },
+            Member::Local(Bind { name: "r".into(), params: None, body: num(1) }),
+        ])),
+        ("ok-objcomp-local-forward-across-field", E::ObjComp { locals1: vec![Bind { name: "v".into(), params: None, body: E::Bin(BinOp::Add, b(var("w")), b(var("q"))) }], name: b(var("q")), plus: false, body: b(var("v")), locals2: vec![Bind { name: "w".into(), params: None, body: strlit("n") }], specs: vec![Spec::For("q".into(), E::Array(vec![strlit("n")]))] }),
+        ("ok-objcomp-local-forward-adjacent", E::ObjComp { locals1: vec![Bind { name: "v".into(), params: None, body: var("w") }, Bind { name: "w".into(), params: None, body: var("q") }], name: b(var("q")), plus: false, body: b(var("v")), locals2: vec![], specs: vec![Spec::For("q".into(), E::Array(vec![strlit("n")]))] }),
+        ("ok-objcomp-local-functions-mutual", E::ObjComp { locals1: vec![], name: b(var("q")), plus: false, body: b(E::Call(b(var("v")), vec![Arg::Pos(num(1))], false)), locals2: vec![
+            Bind { name: "v".into(), params: Some(vec![Param { name: "n".into(), default: None }]), body: E::If(b(E::Bin(BinOp::Eq, b(var("n")), b(num(0)))), b(num(0)), Some(b(E::Call(b(var("w")), vec![Arg::Pos(E::Bin(BinOp::Sub, b(var("n")), b(num(1))))], false)))) },
+            Bind { name: "w".into(), params: Some(vec![Param { name: "n".into(), default: None }]), body: E::Call(b(var("v")), vec![Arg::Pos(var("n"))], false) },
+        ], specs: vec![Spec::For("q".into(), E::Array(vec![strlit("n")]))] }),
+        ("ok-objcomp-later-spec-sees-earlier-var", E::ObjComp { locals1: vec![], name: b(var("r")), plus: false, body: b(var("q")), locals2: vec![], specs: vec![Spec::For("q".into(), E::Array(vec![strlit("n")])), Spec::For("r".into(), E::Array(vec![var("q")])), Spec::If(E::Bin(BinOp::Eq, b(var("r")), b(var("q"))))] }),
         ("ok-objcomp-body-self", E::ObjComp { locals1: vec![], name: b(var("q")), plus: false, body: b(E::SelfE), locals2: vec![Bind { name: "w".into(), params: None, body: var("q") }], specs: vec![Spec::For("q".into(), E::Array(vec![]))] }),
     ]
 }
